@@ -418,7 +418,7 @@ func (x *run) note(i int, via, phase string) {
 		verdict = "rej"
 	}
 	x.res.distinct[strings.Join([]string{c.In, c.Route, c.Frame, via, phase, x.backend, bodyClass(c, x.bodies[i]), strings.Join(set, "."), verdict}, "|")] = struct{}{}
-	if i == 1 && len(x.res.samples) < 2 && via != "enqueue" {
+	if (i == 1 || len(x.cases) == 1) && len(x.res.samples) < 2 && via != "enqueue" {
 		x.res.samples = append(x.res.samples, map[string]any{"backend": x.backend, "flow": x.flow, "via": via, "phase": phase,
 			"in": c.In, "route": x.routeOf(c), "frame": c.Frame, "sent_headers": x.lines[i], "body": short(x.bodies[i]),
 			"reference_headers": refHeaders(c, x.lines[i]), "result": "match"})
@@ -619,16 +619,50 @@ func (x *run) dequeue(via, endpoint string) ([]item, bool) {
 	return out, true
 }
 
-func (x *run) settle(via, endpoint, op string, items []item) bool {
-	if len(items) == 0 {
+// settle acks/nacks the leased items: every second item with a single-lease
+// request (lease_id), the others with one batch request (lease_ids); parity
+// alternates with the step so that every case meets both forms before a later observation.
+func (x *run) settle(via, endpoint, op string, items []item, step int) bool {
+	var batch []string
+	for _, it := range items {
+		if (x.identify(it)+step)%2 != 0 { // parity of the case index, not of the position in the response
+			batch = append(batch, it.Lease)
+			continue
+		}
+		if via == "pull-http" {
+			rec, ok := x.pullHTTP(endpoint, op, map[string]any{"lease_id": it.Lease})
+			if !ok {
+				return false
+			}
+			if rec.Code != 204 {
+				x.infra("pull %s (single): status %d %s", op, rec.Code, rec.Body.String())
+				return false
+			}
+			continue
+		}
+		ctx, cancel := context.WithTimeout(metadata.AppendToOutgoingContext(context.Background(), "authorization", "Bearer g1"), 2*time.Minute)
+		var n uint32
+		var err error
+		if op == "ack" {
+			var resp *workerapipb.AckResponse
+			resp, err = x.in.worker.Ack(ctx, &workerapipb.AckRequest{Endpoint: endpoint, LeaseId: it.Lease})
+			n = resp.GetAcked()
+		} else {
+			var resp *workerapipb.NackResponse
+			resp, err = x.in.worker.Nack(ctx, &workerapipb.NackRequest{Endpoint: endpoint, LeaseId: it.Lease})
+			n = resp.GetSucceeded()
+		}
+		cancel()
+		if err != nil || n != 1 {
+			x.infra("grpc %s (single): %d %v", op, n, err)
+			return false
+		}
+	}
+	if len(batch) == 0 {
 		return true
 	}
-	ids := make([]string, len(items))
-	for i, it := range items {
-		ids[i] = it.Lease
-	}
 	if via == "pull-http" {
-		rec, ok := x.pullHTTP(endpoint, op, map[string]any{"lease_ids": ids})
+		rec, ok := x.pullHTTP(endpoint, op, map[string]any{"lease_ids": batch})
 		if !ok {
 			return false
 		}
@@ -641,15 +675,15 @@ func (x *run) settle(via, endpoint, op string, items []item) bool {
 	ctx, cancel := context.WithTimeout(metadata.AppendToOutgoingContext(context.Background(), "authorization", "Bearer g1"), 2*time.Minute)
 	defer cancel()
 	if op == "ack" {
-		resp, err := x.in.worker.Ack(ctx, &workerapipb.AckRequest{Endpoint: endpoint, LeaseIds: ids})
-		if err != nil || int(resp.GetAcked()) != len(ids) {
+		resp, err := x.in.worker.Ack(ctx, &workerapipb.AckRequest{Endpoint: endpoint, LeaseIds: batch})
+		if err != nil || int(resp.GetAcked()) != len(batch) {
 			x.infra("grpc ack: %v %v", resp, err)
 			return false
 		}
 		return true
 	}
-	resp, err := x.in.worker.Nack(ctx, &workerapipb.NackRequest{Endpoint: endpoint, LeaseIds: ids})
-	if err != nil || int(resp.GetSucceeded()) != len(ids) {
+	resp, err := x.in.worker.Nack(ctx, &workerapipb.NackRequest{Endpoint: endpoint, LeaseIds: batch})
+	if err != nil || int(resp.GetSucceeded()) != len(batch) {
 		x.infra("grpc nack: %v %v", resp, err)
 		return false
 	}
@@ -685,7 +719,7 @@ func (x *run) pullFlow() {
 		for _, rk := range x.usedRoutes() {
 			ep := routes[rk].endpoint
 			items, ok := x.dequeue(st.via, ep)
-			if !ok || !x.checkItems(items, st.via, st.phase, rk) || !x.settle(st.via, ep, st.then, items) {
+			if !ok || !x.checkItems(items, st.via, st.phase, rk) || !x.settle(st.via, ep, st.then, items, n) {
 				return
 			}
 		}
@@ -837,8 +871,18 @@ func (x *run) pushFlow() {
 	drain()
 
 	t.mu.Lock()
-	got := t.got
+	got := append([]delivery{}, t.got...)
 	t.mu.Unlock()
+	rank := map[string]int{"first-delivery": 0, "nack+redelivery": 1, phase: 2}
+	sort.SliceStable(got, func(a, b int) bool { // arrival order of concurrent dispatcher workers is not part of the case
+		if rank[got[a].phase] != rank[got[b].phase] {
+			return rank[got[a].phase] < rank[got[b].phase]
+		}
+		if len(got[a].tag) != len(got[b].tag) {
+			return len(got[a].tag) < len(got[b].tag)
+		}
+		return got[a].tag < got[b].tag
+	})
 	perCase := map[int]map[string]int{}
 	for _, dl := range got {
 		i, err := strconv.Atoi(dl.tag)
